@@ -267,6 +267,20 @@ pub fn build2_rec<T: Flt>(
     fail_build: Option<(BKind, String)>,
     fail_at: Option<(usize, String)>,
 ) -> Option<Result<Box<dyn I2<T>>, BuilderError>> {
+    build2_rec_any::<T, ndarray::OwnedRepr<T>>(x, y, data, dd, min, log, fail_build, fail_at)
+}
+
+/// the same with the axes in any storage (e.g. shared arrays that alias each other)
+pub fn build2_rec_any<T: Flt, SA: ndarray::Data<Elem = T> + 'static>(
+    x: Option<ndarray::ArrayBase<SA, ndarray::Ix1>>,
+    y: Option<ndarray::ArrayBase<SA, ndarray::Ix1>>,
+    data: ArrayD<T>,
+    dd: DDim,
+    min: usize,
+    log: Log,
+    fail_build: Option<(BKind, String)>,
+    fail_at: Option<(usize, String)>,
+) -> Option<Result<Box<dyn I2<T>>, BuilderError>> {
     macro_rules! go2 {
         ($D:ty, $M:ty) => {{
             let data = data.into_dimensionality::<$D>().ok()?;
